@@ -403,3 +403,31 @@ Lemma executable_hypotheses e P sd th n vs k t0 x y now :
   (hnowb P sd th n now = true -> hnow P sd th n now) /\
   (live_startb k t0 x y = true -> live_start k t0 x y).
 Proof. split; [apply hvalidb_ok|split; [apply hnowb_ok|apply live_startb_ok]]. Qed.
+
+(* ================= the bound cannot be lowered by more than two ticks ================= *)
+Definition tight_t0 : Z := 1536000.
+Definition tight_cli : conn := (conn0 false) <| c_key := Some 7 |> <| c_status := CONNECTED |> <| c_last_recv := tight_t0 |>.
+Definition tight_srv : conn := (conn0 true) <| c_key := Some 7 |> <| c_status := CONNECTED |> <| c_last_recv := tight_t0 |>.
+Definition tight_env : env := {| e_max_payload := 1434; e_max_frag := 1024; e_max_frags := 8192 |}.
+Definition tight_P : tparams := {| tp_tau := 300; tp_d := 100; tp_life := 0; tp_T := 5 * TICKS |}.
+(* the first datagram leaves one tick before the network heals and is lost; the update() at
+   t0 + 1835 finds the retry one tick too young; the next update() is tau later; the network takes d *)
+Definition tight_hs : list tev :=
+  [TClient (tight_t0 + 300) SNone; TClient (tight_t0 + 600) SNone; TClient (tight_t0 + 900) SNone;
+   TClient (tight_t0 + 1200) SNone; TClient (tight_t0 + 1500) SNone; TClient (tight_t0 + 1800) SNone;
+   TClient (tight_t0 + 1835) SNone; TClient (tight_t0 + 2135) SNone].
+
+Lemma bound_nearly_tight_proof :
+  exists e P k t0 th cli srv p ucb hs now,
+    live_start k t0 cli srv /\ lenv_ok e /\ len p <= e_max_payload e /\ 0 <= tp_d P
+    /\ hvalid e P SCli th (after_send e SCli cli srv p ucb t0) hs
+    /\ hnow P SCli th (trun e P (after_send e SCli cli srv p ucb t0) hs) now
+    /\ now = Z.max th t0 + live_bound P cli - 2
+    /\ c_incoming (t_srv (trun e P (after_send e SCli cli srv p ucb t0) hs)) = c_incoming srv.
+Proof.
+  exists tight_env, tight_P, 7, tight_t0, (tight_t0 + 301), tight_cli, tight_srv, [x2a], (IUser 1), tight_hs, (tight_t0 + 2235).
+  split; [apply live_startb_ok; vm_compute; reflexivity|].
+  split; [vm_compute; reflexivity|]. split; [vm_compute; discriminate|]. split; [vm_compute; discriminate|].
+  split; [apply hvalidb_ok; vm_compute; reflexivity|]. split; [apply hnowb_ok; vm_compute; reflexivity|].
+  split; vm_compute; reflexivity.
+Qed.
